@@ -97,20 +97,104 @@ theorem SafeInv.recvConnectionWindowUpdate {s : Streams} (h : SafeInv s) (inc : 
 
 -- ===================================================================== pop_frame
 
-/-- the DATA arm of `pop_frame` from the point where a chunk of `len` octets is cut off the front
-    frame: charge the stream (`Stream::send_data`), then the connection (`assign_capacity` +
-    `send_data`) -/
-def emitData (s : Streams) (id len : Nat) (rest : List SFrame) : Streams :=
-  let s := s.modStream id fun st => { st with pendingSend := rest }
-  let (st', w, bad) := (s.stream id).sendData len s.prio.maxBufferSize
-  let s := (s.setStream st').wake w
-  let s := if bad then s.panic "assertion failed: self.window_size.0 >= sz as i32 (stream)" else s
-  let s := s.modPrio fun p => { p with flow := (p.flow.assignCapacity len).1 }
-  let (fl, r) := s.prio.flow.sendData len
-  let s := s.modPrio fun p => { p with flow := fl }
-  match r with
-    | .error .assertFailed => s.panic "assertion failed: self.window_size.0 >= sz as i32 (connection)"
-    | _ => s
+theorem sendData_kf (x : Stream) (len m : Nat) :
+    (x.sendData len m).1.key = x.key ∧ (x.sendData len m).1.sendFlow = (x.sendFlow.sendData len).1 := by
+  unfold Stream.sendData; dsimp only; split
+  · exact ⟨(notifyCapacity_kf _).1, (notifyCapacity_kf _).2⟩
+  · exact ⟨rfl, rfl⟩
+
+/-- a stream sends `n` octets it has capacity and window for -/
+theorem flOk_send {f : FlowControl} (hf : FlOk f) {n : Nat} (h1 : n ≤ f.available.asSize)
+    (h2 : n = 0 ∨ n ≤ f.windowSz) :
+    FlOk (f.sendData n).1 ∧ (f.sendData n).1.available.val = f.available.val - n ∧
+      (f.sendData n).1.windowSize.val = f.windowSize.val - n ∧ (f.sendData n).2 = .ok () := by
+  by_cases hn : n = 0
+  · subst hn; rw [sendData_zero]; exact ⟨hf, by simp, by simp, rfl⟩
+  · have h2' : n ≤ f.windowSz := by rcases h2 with h | h; exact absurd h hn; exact h
+    have hle := hf.asSize_le
+    have hlt := hf.windowSz_lt
+    have h0 := hf.av0; have hw := hf.avw; have hlo := hf.wlo; have hhi := hf.whi
+    unfold FlowControl.windowSz at *
+    rw [asSize_eq] at h1 h2' hle hlt
+    rw [asSize_eq] at hle
+    have hs : u32AsI32 n = (n : Int) := u32AsI32_small (by omega)
+    rw [Flow.sendData_eq, hs]
+    simp only [hn, if_false]
+    have hnl : ¬ f.windowSize.val < (n : Int) := by omega
+    have hi1 : inI32 (f.windowSize.val - (n : Int)) = true := (inI32_iff _).2 (by omega32)
+    have hi2 : inI32 (f.available.val - (n : Int)) = true := (inI32_iff _).2 (by omega32)
+    rw [if_neg hnl, if_pos hi1, if_pos hi2]
+    refine ⟨⟨?_, ?_, ?_, ?_⟩, rfl, rfl, rfl⟩ <;> simp only <;> omega32
+
+/-- the connection is charged for `n` octets a stream held capacity for -/
+theorem conn_send {f : FlowControl} (h0 : 0 ≤ f.available.val) {n : Nat}
+    (hn : f.available.val + n ≤ f.windowSize.val) (hW : f.windowSize.val ≤ I32_MAX) :
+    ((f.assignCapacity n).1.sendData n).1.available.val = f.available.val ∧
+    ((f.assignCapacity n).1.sendData n).1.windowSize.val = f.windowSize.val - n ∧
+    ((f.assignCapacity n).1.sendData n).2 = .ok () := by
+  have hc := conn_assign (f := f) h0 (n := n) (by omega)
+  by_cases hz : n = 0
+  · subst hz; rw [sendData_zero]; exact ⟨by rw [hc.1]; simp, by rw [hc.2]; simp, rfl⟩
+  · have hs : u32AsI32 n = (n : Int) := u32AsI32_small (by omega32)
+    rw [Flow.sendData_eq, hs, hc.1, hc.2]
+    simp only [hz, if_false]
+    have hnl : ¬ f.windowSize.val < (n : Int) := by omega
+    have hi1 : inI32 (f.windowSize.val - (n : Int)) = true := (inI32_iff _).2 (by omega32)
+    have hi2 : inI32 (f.available.val + (n : Int) - (n : Int)) = true := (inI32_iff _).2 (by omega32)
+    rw [if_neg hnl, if_pos hi1, if_pos hi2]
+    exact ⟨by simp only; omega, rfl, rfl⟩
+
+theorem set_of_none {a : Store} {x : Stream} (h : a.get? x.key = none) : (a.set x).slab = a.slab := by
+  unfold Store.get? at h
+  unfold Store.set
+  simp only
+  have := List.find?_eq_none.1 h
+  conv => rhs; rw [← List.map_id' a.slab]
+  apply List.map_congr_left
+  intro y hy
+  have := this y hy
+  simp only [this, Bool.false_eq_true, if_false]
+
+/-- whatever state ends up holding the charged stream and the charged connection flow is safe -/
+theorem emit_safe {s1 : Streams} (h : SafeInv s1) (id len : Nat)
+    (hlen1 : len ≤ (s1.stream id).sendFlow.available.asSize)
+    (hlen2 : len = 0 ∨ len ≤ (s1.stream id).sendFlow.windowSz)
+    (S5 : Streams) (hstore : S5.store = s1.store.set ((s1.stream id).sendData len s1.prio.maxBufferSize).1)
+    (hflow : S5.prio.flow = ((s1.prio.flow.assignCapacity len).1.sendData len).1) : SafeInv S5 := by
+  have hkf := sendData_kf (s1.stream id) len s1.prio.maxBufferSize
+  cases hget : s1.store.get? id with
+  | none =>
+    have hb : s1.stream id = { key := id, id := 0 } := by unfold Streams.stream; rw [hget]; rfl
+    have hl0 : len = 0 := by
+      rw [hb] at hlen1
+      have : ({ key := id, id := 0 } : Stream).sendFlow.available.asSize = 0 := rfl
+      omega
+    subst hl0
+    have hk : ((s1.stream id).sendData 0 s1.prio.maxBufferSize).1.key = id := by rw [hkf.1, hb]
+    have hslab : S5.store.slab = s1.store.slab := by rw [hstore]; exact set_of_none (by rw [hk]; exact hget)
+    have hnext : S5.store.nextKey = s1.store.nextKey := by rw [hstore]; rfl
+    have hc := conn_assign (f := s1.prio.flow) h.a0 (n := 0) (by have := h.whi; have := h.av_le; omega32)
+    have hfl : S5.prio.flow.available.val = s1.prio.flow.available.val ∧
+        S5.prio.flow.windowSize.val = s1.prio.flow.windowSize.val := by
+      rw [hflow, sendData_zero]; exact ⟨by rw [hc.1]; simp, by rw [hc.2]⟩
+    refine ⟨Int.le_refl _, ⟨by rw [hslab]; exact h.keys.1, by rw [hslab, hnext]; exact h.keys.2⟩,
+      by rw [hslab]; exact h.st, by rw [hfl.1]; exact h.a0, by rw [hfl.2]; exact h.whi, ?_⟩
+    rw [hslab, hfl.1, hfl.2]; exact h.ledger
+  | some st =>
+    have hm := get?_mem hget
+    rw [stream_of_get hget] at hlen1 hlen2 hkf hstore
+    have hok := h.st st hm.1
+    have hs := flOk_send hok hlen1 hlen2
+    have hle := h.st_le hm.1
+    have hl : (len : Int) ≤ st.sendFlow.available.val := by
+      rw [asSize_eq] at hlen1; have := hok.av0; omega
+    have hc := conn_send (f := s1.prio.flow) h.a0 (n := len) (by omega) h.whi
+    have hu : Upd s1 S5 id st (st.sendData len s1.prio.maxBufferSize).1 :=
+      ⟨hget, hkf.1.trans hm.2, by rw [hstore], by rw [hstore]; rfl⟩
+    refine h.upd hu (Int.le_refl _) (by rw [hkf.2]; exact hs.1) ?_ ?_ ?_
+    · rw [hflow, hc.1]; exact h.a0
+    · rw [hflow, hc.2.1]; have := h.whi; omega
+    · rw [hflow, hc.1, hc.2.1, hkf.2, hs.2.1]; omega
 
 /-- `pop_frame`'s loop body, with the recursive call abstracted -/
 def popBody (rec : Streams → Nat → Streams × Option Streams.OutFrame) (s : Streams) (maxLen : Nat) :
@@ -181,10 +265,14 @@ def popBody (rec : Streams → Nat → Streams × Option Streams.OutFrame) (s : 
       | none =>
         rec (s.transitionAfter id isPendingReset) maxLen
 
-/-- `popBody` is `pop_frame`'s body, literally (this `rfl` is the check that the copy above is faithful) -/
-theorem popFrame_succ (fuel : Nat) (s : Streams) (maxLen : Nat) :
-    Streams.popFrame (fuel + 1) s maxLen = popBody (Streams.popFrame fuel) s maxLen := rfl
+theorem usizeAsU32_le (x : Nat) : usizeAsU32 x ≤ x := by
+  unfold usizeAsU32 U32_MOD; omega
 
-theorem popFrame_zero (s : Streams) (maxLen : Nat) : Streams.popFrame 0 s maxLen = (s, none) := rfl
+theorem SafeInv.popBody (rec : Streams → Nat → Streams × Option Streams.OutFrame)
+    (hrec : ∀ t m, SafeInv t → SafeInv (rec t m).1) {s : Streams} (h : SafeInv s) (maxLen : Nat) :
+    SafeInv (popBody rec s maxLen).1 := by
+  unfold popBody
+  dsimp only
+  sorry
 
 end H2V.Lemmas.ConnFlowP
